@@ -50,24 +50,101 @@ macro_rules! roundtrip {
     }};
 }
 
+/// Build `src` with the real CTParserBuilder, scrape `__GRM_DATA`, `__STABLE_DATA` and
+/// `__SERIALISATION_FORMAT` out of the generated module, reconstitute them as the module's own
+/// `__lrpar_parser_data` does (the configuration is chosen by the recorded tag, not by what we asked
+/// for) and compare every query with the grammar and table built directly from the same text.
+fn generated_module_roundtrip(ag: &AG, src: &str, inputs: &[(Vec<String>, bool)], fixed: bool, idx: u64) -> Result<u64, String> {
+    use lrlex::DefaultLexerTypes;
+    use lrpar::CTParserBuilder;
+    if matches!(ag.kind, AKind::Eco) {
+        // the compile-time builder documents that it does not support Eco grammars
+        return Err("SKIP Eco".into());
+    }
+    let grm = YaccGrammar::<u32>::new_with_storaget(ag.kind.yacckind(), src).map_err(|e| format!("SKIP grammar rejected: {e:?}"))?;
+    let (sg, st) = from_yacc(&grm, Minimiser::Pager).map_err(|e| format!("SKIP from_yacc: {e}"))?;
+    let n = usize::from(sg.all_states_len());
+    let dir = format!("{VERIF_DIR}/work/c14-{}-{idx}-{}", std::process::id(), fixed as u8);
+    std::fs::remove_dir_all(&dir).ok();
+    std::fs::create_dir_all(&dir).map_err(|e| e.to_string())?;
+    let gp = format!("{dir}/g.y");
+    let po = format!("{dir}/g.y.rs");
+    std::fs::write(&gp, src).map_err(|e| e.to_string())?;
+    let built = CTParserBuilder::<DefaultLexerTypes<u32>>::new()
+        .yacckind(ag.kind.yacckind())
+        .grammar_path(&gp)
+        .output_path(&po)
+        .error_on_conflicts(false)
+        .warnings_are_errors(false)
+        .show_warnings(false)
+        .serialisation_format(if fixed { lrpar::SerialisationFormat::FixedSizeInteger } else { lrpar::SerialisationFormat::VariableSizedInteger })
+        .build()
+        .map(|_| ())
+        .map_err(|e| format!("SKIP builder refused: {}", e.to_string().lines().next().unwrap_or("")));
+    let module = std::fs::read_to_string(&po);
+    std::fs::remove_dir_all(&dir).ok();
+    built?;
+    let module = module.map_err(|e| format!("generated module unreadable: {e}"))?;
+    let bytes_of = |name: &str| -> Result<Vec<u8>, String> {
+        let key = format!("const {name}: &[u8] = &[");
+        let a = module.find(&key).ok_or_else(|| format!("{name} not found in the generated module"))? + key.len();
+        let b = a + module[a..].find("];").ok_or_else(|| format!("{name}: unterminated array"))?;
+        module[a..b].split(',').map(|x| x.trim()).filter(|x| !x.is_empty()).map(|x| x.trim_end_matches("u8").parse::<u8>().map_err(|e| format!("{name}: bad element {x:?}: {e}"))).collect()
+    };
+    let gb = bytes_of("__GRM_DATA")?;
+    let sb = bytes_of("__STABLE_DATA")?;
+    let tag_at = module.find("const __SERIALISATION_FORMAT").ok_or("format tag not found in the generated module")?;
+    let tag_line = module[tag_at..].split(';').next().unwrap_or("");
+    let tag_fixed = if tag_line.contains("FixedSizeInteger") {
+        true
+    } else if tag_line.contains("VariableSizedInteger") {
+        false
+    } else {
+        return Err(format!("unrecognised format tag: {tag_line}"));
+    };
+    let pd = if tag_fixed { _reconstitute::<_, u32>(&gb, &sb, wincode::config::Configuration::default().with_fixint_encoding()) } else { _reconstitute::<_, u32>(&gb, &sb, wincode::config::Configuration::default().with_varint_encoding()) };
+    let mut queries = 0u64;
+    let (a, b) = (dump_grm(&grm), dump_grm(pd.grm()));
+    queries += a.lines().count() as u64;
+    if a != b {
+        let d = a.lines().zip(b.lines()).find(|(x, y)| x != y).map(|(x, y)| format!("built directly: {x}\nfrom the generated module: {y}")).unwrap_or_else(|| "different number of lines".into());
+        return Err(format!("grammar queries differ:\n{d}"));
+    }
+    let (a, b) = (dump_table(&grm, n, &st, false), dump_table(pd.grm(), n, pd.stable(), false));
+    queries += a.lines().count() as u64;
+    if a != b {
+        let d = a.lines().zip(b.lines()).find(|(x, y)| x != y).map(|(x, y)| format!("built directly: {x}\nfrom the generated module: {y}")).unwrap_or_else(|| "different number of lines".into());
+        return Err(format!("table queries differ:\n{d}"));
+    }
+    for (toks_by_name, recov) in inputs.iter() {
+        let toks: Vec<usize> = toks_by_name.iter().filter_map(|nm: &String| grm.token_idx(nm).map(usize::from)).collect();
+        let (a, b) = (parse_dump(&grm, &st, &toks, *recov), parse_dump(pd.grm(), pd.stable(), &toks, *recov));
+        queries += 1;
+        if a != b {
+            return Err(format!("parse results differ on input {toks_by_name:?} (recovery {recov}):\nbuilt directly: {a}\nfrom the generated module: {b}"));
+        }
+    }
+    Ok(queries)
+}
+
 impl Check for C14 {
     fn id(&self) -> &'static str {
         "C14"
     }
     fn ncases(&self, tier: Tier) -> u64 {
-        tier.sz(400, 6000)
+        tier.sz(1600, 30000)
     }
     fn rule(&self) -> &'static str {
-        "one decorated abstract grammar per case (optional declarations present/absent, non-ASCII names, %epp, action text, precedences, %avoid_insert, conflicts or none, all syntaxes) x storage {u8,u16,u32} x {fixed, variable} integer encoding: serialise with lrpar::ctbuilder::wincode exactly as the generated parser does, _reconstitute, and compare a canonical dump of every public query (all grammar accessors; every state x token action, state x rule goto, state_actions, state_shifts, core_reduces, reduce_only_state, start_state, conflict lists) and the parse results of 8 inputs (recovery off and on). Non-trivial = grammar uses >= 3 optional declarations; distinct by (grammar, width, format)."
+        "one decorated abstract grammar per case (optional declarations present/absent, non-ASCII names, %epp, action text, precedences, %avoid_insert, conflicts or none, all syntaxes) x storage {u8,u16,u32} x {fixed, variable} integer encoding: serialise with lrpar::ctbuilder::wincode exactly as the generated parser does, _reconstitute, and compare a canonical dump of every public query (all grammar accessors; every state x token action, state x rule goto, state_actions, state_shifts, core_reduces, reduce_only_state, start_state, conflict lists) and the parse results of 8 inputs (recovery off and on); every fourth grammar additionally goes through CTParserBuilder in both formats and the byte arrays and format tag scraped from the generated module are reconstituted the way the module itself does and compared with the directly built grammar/table. Non-trivial = grammar uses >= 3 optional declarations; distinct by (grammar, width, format)."
     }
     fn assumptions(&self) -> Vec<&'static str> {
         vec!["with recovery on, parse results are compared up to the first error's repair set (the choice among equal-rank repairs is unspecified)"]
     }
     fn floor(&self, tier: Tier) -> u64 {
-        tier.sz(600, 8000)
+        tier.sz(1200, 16000)
     }
     fn required_counters(&self, _t: Tier) -> Vec<&'static str> {
-        vec!["round_trips", "bytes_serialised", "queries_compared", "grammars_with_conflicts", "grammars_without_conflicts", "grammars_with_avoid_insert"]
+        vec!["round_trips", "bytes_serialised", "queries_compared", "grammars_with_conflicts", "grammars_without_conflicts", "grammars_with_avoid_insert", "generated_modules_reconstituted"]
     }
     fn run_case(&self, seed: u64, idx: u64, _tier: Tier) -> CaseOut {
         let mut out = CaseOut::new();
@@ -136,6 +213,23 @@ impl Check for C14 {
         if let Ok(b) = build_grm_src(&ag, src.clone()) {
             if let Ok(Ok((_, st))) = guarded(|| b.table()) {
                 conflicts_seen = Some(st.conflicts().is_some());
+            }
+        }
+        // ---- through the builder: what a generated parser module really carries. Every fourth case the
+        // grammar is put through CTParserBuilder (both formats), the byte arrays and the format tag are read
+        // back from the generated module and reconstituted the way the module's own start-up code does.
+        if idx % 4 == 0 {
+            for fixed in [false, true] {
+                out.evals += 1;
+                match guarded(|| generated_module_roundtrip(&ag, &src, &inputs, fixed, idx)) {
+                    Err(p) => out.violate("panic", &["generated-module"], format!("generated module ({}): panicked: {p}", if fixed { "fixed" } else { "variable" }), json!({"grammar": src, "kind": ag.kind.name()})),
+                    Ok(Err(e)) if e.starts_with("SKIP") => out.count("generated_module_builder_refusals", 1),
+                    Ok(Err(e)) => out.violate("round-trip-differs", &["generated-module"], format!("generated module ({}): {e}", if fixed { "fixed" } else { "variable" }), json!({"grammar": src, "kind": ag.kind.name()})),
+                    Ok(Ok(q)) => {
+                        out.count("generated_modules_reconstituted", 1);
+                        out.count("queries_compared", q);
+                    }
+                }
             }
         }
         match conflicts_seen {
